@@ -99,7 +99,7 @@ def check(mkind, law, flux, rname, mspec, kinds, idx, res=None):
         out.append((site + "/field-modified", "%s %s sources %r data %r: evaluating the operator changed the field it was given" % (mkind, law, kinds, idx)))
         q = [np.asarray(d, float) for d in f2.data]
     for s_ in srcs:
-        if s_ and s_.kind == "t" and not np.array_equal(s_.table, s_.table0):
+        if s_ and s_.kind == "t" and getattr(s_, "table", None) is not None and not np.array_equal(s_.table, s_.table0):
             out.append((site + "/source-output-modified", "%s %s sources %r: the array returned by a source function was changed by the library (%r -> %r)" % (
                 mkind, law, kinds, s_.table0.tolist(), s_.table.tolist())))
     for i in range(neq):
